@@ -75,11 +75,30 @@ def one_fit(arg):
     kind, case, cfg, seed = arg
     recs = []; lit = dict(kind=kind, cfg=cfg, case=zoo.case_literal(case))
     def rec(clause, ok, msg, extra=None): recs.append((clause, bool(ok), dict(lit, **(extra or {})) if not ok else dict(kind=kind, cfg=cfg, h=hash(str(lit['case'])), extra=extra), msg))
+    custom = 'str_nan' in cfg or 'str_default' in cfg
+    def default_twin():
+        c2 = {k: v for k, v in cfg.items() if k not in ('str_nan', 'str_default')}
+        try: return ob.build(kind, case, c2)
+        except AssertionError: return 'reject'
+        except Exception: return 'error'
     try:
         obj = ob.build(kind, case, cfg)
-    except AssertionError: return recs
+    except AssertionError as e:
+        # the spelling of the two markers is not information: a sample accepted with the default markers is accepted with custom ones
+        if custom and not isinstance(default_twin(), str):
+            rec('fit#post.base_modalities_do_not_depend_on_the_spelling_of_the_markers', False, '%s.fit accepts the sample with the default markers but raises with %r: %s' % (kind, {k: cfg[k] for k in ('str_nan', 'str_default') if k in cfg}, str(e)[:200]))
+        return recs
     except Exception as e:
         rec('fit#raises.only_AssertionError', False, '%s.fit raised %s: %s' % (kind, type(e).__name__, str(e)[:200])); return recs
+    if custom:
+        tw = default_twin()
+        if not isinstance(tw, str):
+            ren = {tw.str_nan: obj.str_nan, tw.str_default: obj.str_default}
+            part = lambda o, r: {f: sorted(sorted(repr(r.get(v, v) if isinstance(v, str) else v) for v in vs) for vs in o.values_orders[f].content.values()) for f in o.features}
+            a, b = part(obj, {}), part(tw, ren)
+            rec('fit#post.base_modalities_do_not_depend_on_the_spelling_of_the_markers', a == b, 'custom markers give %r, default markers %r' % ({f: a[f] for f in a if a.get(f) != b.get(f)}, {f: b[f] for f in b if a.get(f) != b.get(f)}))
+        else:
+            rec('fit#post.base_modalities_do_not_depend_on_the_spelling_of_the_markers', False, 'accepted with custom markers, %s with the default ones' % tw)
     X = case['X']; n = len(X); mf = cfg['min_freq']
     try: out = obj.transform(X)
     except Exception as e:
